@@ -52,7 +52,7 @@ def run(ctx):
                 break
             gb = bytes(got.b) if isinstance(got, PStr) else None
             if st.fail_at is not None and st.ncalls > st.fail_at and not getattr(st, 'transient', False):
-                bad_ = bad_ or (label, 'returns %d byte(s) as if nothing had happened; a failed read must throw' % len(gb or b''))
+                bad_ = bad_ or (label, 'returns %d of the %d byte(s) as if the stream had ended; a failed read must throw (or be retried until the data arrives)' % (len(gb or b''), len(st.data)))
                 continue
             w_ = want(st)
             if gb != w_[0]:
@@ -105,6 +105,14 @@ def run(ctx):
                 return st_
             for k_ in (0, 1, 3):
                 cases.append(('20000 bytes whose read() call #%d fails' % k_, (lambda k_=k_: failing_fd(bytes(20000), k_)), (lambda st: (bytes(20000), None))))
+
+            def eagain_fd(d, k):
+                st_ = Stream(d, [5000])
+                st_.fail_at = k
+                st_.fail_errno = 11        # EAGAIN / EWOULDBLOCK: no data right now on a non-blocking descriptor, the stream is not over
+                return st_
+            for k_ in (0, 2):
+                cases.append(('20000 bytes on a non-blocking descriptor whose read() call #%d reports EAGAIN' % k_, (lambda k_=k_: eagain_fd(bytes(range(250)) * 80, k_)), (lambda st: (bytes(range(250)) * 80, None))))
 
             def eintr_fd(d, k):
                 st_ = Stream(d, [5000])
